@@ -37,6 +37,7 @@ type GenOpts struct {
 	NoStaleGrace   bool
 	Actions        []string // nil = all
 	FixedConfig    bool
+	Overhead       bool // some pods carry spec.overhead (RuntimeClass)
 }
 
 func pick[T any](t *rapid.T, label string, xs ...T) T {
@@ -145,6 +146,10 @@ func genPodShape(t *rapid.T, o GenOpts, hasMIGNode bool) PodSpec {
 	p := PodSpec{State: "pending"}
 	p.CPUm = int64(pick(t, "pcpu", 100, 500, 1000, 2000, 4000))
 	p.MemMi = int64(pick(t, "pmem", 128, 1024, 4096, 8192))
+	if o.Overhead && chance(t, "overhead", 20) { // RuntimeClass overhead
+		p.OverheadCPUm = int64(pick(t, "ohcpu", 0, 250, 500, 1000))
+		p.OverheadMemMi = int64(pick(t, "ohmem", 0, 128, 512, 2048))
+	}
 	kind := pick(t, "gpukind", "whole", "whole", "cpu", "frac", "frac", "mem", "multi", "mig")
 	switch kind {
 	case "whole":
@@ -320,7 +325,7 @@ func placeInitial(t *rapid.T, o GenOpts, w *World) {
 				if n.Unschedulable || n.NotReady || len(n.Taints) > 0 {
 					continue
 				}
-				if s.cpu < p.CPUm || s.mem < p.MemMi*1024*1024 || s.pods < 1 {
+				if s.cpu < p.CPUm+p.OverheadCPUm || s.mem < (p.MemMi+p.OverheadMemMi)*1024*1024 || s.pods < 1 {
 					continue
 				}
 				ok := true
@@ -385,8 +390,8 @@ func placeInitial(t *rapid.T, o GenOpts, w *World) {
 					}
 					s.gpus -= p.GPUs
 				}
-				s.cpu -= p.CPUm
-				s.mem -= p.MemMi * 1024 * 1024
+				s.cpu -= p.CPUm + p.OverheadCPUm
+				s.mem -= (p.MemMi + p.OverheadMemMi) * 1024 * 1024
 				s.pods--
 				for mk, mv := range p.MIG {
 					s.ext[mk] -= mv
@@ -700,7 +705,11 @@ func GenHandoffScript(t *rapid.T, thorough bool) *Script {
 			ops = append(ops, Op{Kind: "set_backoff", N: rapid.IntRange(1, 4).Draw(t, "limit")})
 		}
 		if chance(t, "rbinder", 85) {
-			ops = append(ops, Op{Kind: "rbinder", N: rapid.IntRange(0, 3).Draw(t, "retries")})
+			rb := Op{Kind: "rbinder", N: rapid.IntRange(0, 3).Draw(t, "retries")}
+			if chance(t, "midcycle", 45) { // a scheduler cycle while a bind is in flight (between two of its API calls)
+				rb.Arg = fmt.Sprintf("mid:%d", rapid.IntRange(2, 24).Draw(t, "midat"))
+			}
+			ops = append(ops, rb)
 		}
 		if chance(t, "kubelet", 70) {
 			ops = append(ops, Op{Kind: "kubelet"})
